@@ -21,8 +21,9 @@ pub enum HttpBehaviour {
 
 #[derive(Clone, Debug, PartialEq)]
 pub enum TcpBehaviour {
-    /// send these bytes, then close; `cut`: write [..cut], pause, write the rest
-    Send { data: Vec<u8>, cut: Option<usize> },
+    /// send these bytes, then close; `cut`: write [..cut], pause, write the rest;
+    /// `cut2` (> cut): a second pause after [..cut2]
+    Send { data: Vec<u8>, cut: Option<usize>, cut2: Option<usize> },
     Refuse,
     AcceptClose,
     /// send the first half, then close
@@ -203,18 +204,18 @@ pub async fn tcp_mock(b: TcpBehaviour) -> Mock {
             }
             log2.lock().unwrap().requests.push(String::from_utf8_lossy(&buf).trim().to_string());
             match &b {
-                TcpBehaviour::Send { data, cut } => {
-                    match cut {
-                        Some(c) if *c > 0 && *c < data.len() => {
-                            let _ = s.write_all(&data[..*c]).await;
-                            let _ = s.flush().await;
-                            tokio::time::sleep(Duration::from_millis(120)).await;
-                            let _ = s.write_all(&data[*c..]).await;
-                        }
-                        _ => {
-                            let _ = s.write_all(data).await;
-                        }
+                TcpBehaviour::Send { data, cut, cut2 } => {
+                    let mut cuts: Vec<usize> = [*cut, *cut2].iter().flatten().copied().filter(|c| *c > 0 && *c < data.len()).collect();
+                    cuts.sort_unstable();
+                    cuts.dedup();
+                    let mut from = 0;
+                    for c in cuts {
+                        let _ = s.write_all(&data[from..c]).await;
+                        let _ = s.flush().await;
+                        tokio::time::sleep(Duration::from_millis(120)).await;
+                        from = c;
                     }
+                    let _ = s.write_all(&data[from..]).await;
                     let _ = s.shutdown().await;
                 }
                 TcpBehaviour::CloseMid(data) => {
